@@ -58,9 +58,52 @@ func peelIdentity(v ssa.Value) ssa.Value {
 	return v
 }
 
-// zeroValued reports whether v is the zero value of its type in every spelling: a zero constant, *new(T) / var z T
-// (the load of a cell that is never written), or the call of a parameterless function all of whose returns are
-// zero valued (a generic zero[T]() helper).
+// zeroCell reports whether the local cell a holds the zero value of its type whenever it is read: nothing is ever written
+// to it or through it. Its only uses are loads - and, for a struct cell (a composite literal T{} / T{f: zero}), field
+// addresses that are themselves only loaded from or assigned zero values. A cell whose address goes anywhere else (a
+// call, a closure, another cell) is not known to stay zero.
+func zeroCell(a *ssa.Alloc, depth int) bool {
+	refs := a.Referrers()
+	if refs == nil {
+		return true
+	}
+	for _, ref := range *refs {
+		switch x := ref.(type) {
+		case *ssa.DebugRef:
+		case *ssa.UnOp:
+			if x.Op != token.MUL {
+				return false
+			}
+		case *ssa.FieldAddr:
+			frefs := x.Referrers()
+			if frefs == nil {
+				continue
+			}
+			for _, fr := range *frefs {
+				switch y := fr.(type) {
+				case *ssa.DebugRef:
+				case *ssa.UnOp:
+					if y.Op != token.MUL {
+						return false
+					}
+				case *ssa.Store:
+					if y.Addr != ssa.Value(x) || !zeroValued(y.Val, depth+1) {
+						return false
+					}
+				default:
+					return false
+				}
+			}
+		default:
+			return false
+		}
+	}
+	return true
+}
+
+// zeroValued reports whether v is the zero value of its type in every spelling: a zero constant, *new(T) / var z T /
+// T{} (the load of a cell that is never written, see zeroCell), or the call of a parameterless function all of whose
+// returns are zero valued (a generic zero[T]() helper).
 func zeroValued(v ssa.Value, depth int) bool {
 	if v == nil || depth > 3 {
 		return false
@@ -69,7 +112,7 @@ func zeroValued(v ssa.Value, depth int) bool {
 		return true
 	}
 	if u, ok := v.(*ssa.UnOp); ok && u.Op == token.MUL {
-		if a, ok := u.X.(*ssa.Alloc); ok && len(ir.StoresTo(a)) == 0 {
+		if a, ok := u.X.(*ssa.Alloc); ok && len(ir.StoresTo(a)) == 0 && zeroCell(a, depth) {
 			return true
 		}
 	}
